@@ -43,7 +43,10 @@ CHECKS["C18"] = {
             "flag byte round trip. Config listing (unit configindex, real TenantIndex::query_config_page): a namespace the privilege does not permit contributes nothing to "
             "the page or the total, for a query that names a tenant and for a query over all tenants. "
             "Service listing (unit serviceindex, real NamespaceIndex::query_service_page): same statement for services, for a query that names a namespace and for the console listing over all namespaces.",
-    "note": "NOT decided: the namespace listing filter (namespace actor), and that each console handler calls the check before acting (actix handlers/macros are outside Verus) — a handler that forgets the check is not detected. "
+    "note": "Handler half: NOT proved — a BOUNDED stand-in runs on every check (real console route table behind a stub login layer that attaches a restricted user's session; every "
+            "namespace-scoped route x 4 methods x 3 restricted users x the forbidden namespace named by query / form / JSON, or not named at all, must be refused before data is touched). "
+            "It FAILS on the unchanged tree for three recorded groups of routes — KNOWN FINDINGS S14 (v1 console data routes), S15 (v2 config/download), S16 (console MCP routes): see "
+            "known_findings.json; any other unrefused probe is a violation. NOT decided: the namespace listing filter (namespace actor), and that each console handler calls the check before acting (actix handlers/macros are outside Verus) — a handler that forgets the check is not detected. "
             "bitflags! constants are modelled (glue.rs) and the macro text is re-checked on every run; HashSet::contains / key model per vstd + A-KEY.",
 }
 
